@@ -501,6 +501,8 @@ def gen_pty(rng, op=None):
     c = gen_pty0(rng, op)
     if rng.random() < 0.45:
         c["init"] = gen_init(rng)
+    if rng.random() < 0.4:
+        c["place"] = rng.choice(PLACES)
     return c
 
 
@@ -574,14 +576,46 @@ WHOLE = {"mode": "whole", "delays": []}
 UNITS1 = {"mode": "units", "delays": [0, 1]}
 
 
-def pty_case(op, sp, cfg=None, recipes=None, cache=None, calls=None, init=None):
+def pty_case(op, sp, cfg=None, recipes=None, cache=None, calls=None, init=None, place=None):
     c = {"kind": "pty", "op": op, "cfg": dict(CFG0, **(cfg or {})), "cache": cache or [0, 0, 0, 0], "sp": sp,
          "recipes": recipes or [UNITS1, UNITS1]}
     if calls is not None:
         c["calls"] = calls
     if init is not None:
         c["init"] = init
+    if place is not None:
+        c["place"] = place
     return c
+
+
+# the moment a reply ARRIVES relative to the library's own steps (c12_pty.py, "REPLY PLACEMENT")
+PLACES = ["window", "read", "split"]
+UNITS0 = {"mode": "units", "delays": []}
+
+
+def place_cases(full):
+    """every getter x every placement point of the replies {right after the request has been
+    fully written - before the library's next tty call -, during the read, split across both},
+    one write() per reply; a few from a non-default initial state; the raw query too"""
+    out = []
+    for op, calls, prof in INIT_GETTERS:
+        sp = full_sp(b"Konsole", b"22.04.0") if prof == "kons" else full_sp()
+        for pl in PLACES:
+            out.append(pty_case(op, sp, calls=calls, recipes=[UNITS0, UNITS0], place=pl))
+            if full:
+                out.append(pty_case(op, sp, calls=calls, recipes=[WHOLE, WHOLE], place=pl))
+                out.append(pty_case(op, dict(sp, da1=None), calls=calls, recipes=[UNITS0, UNITS0], place=pl))
+    out += [pty_case("namever", full_sp(), recipes=[UNITS0], place="window", init=mk_init("cbreak", "printable")),
+            pty_case("fgbg", full_sp(), recipes=[UNITS0], place="split", init=mk_init("raw", "stale-DA1-reply")),
+            pty_case("cellsize", full_sp(), recipes=[UNITS0], place="window", init=mk_init("cooked", "key-escape-sequence")),
+            pty_case("kitty", full_sp(), recipes=[UNITS0, UNITS0], place="read", init=mk_init("cbreak", "none")),
+            # a held-back last reply (beyond the timeout) after the others arrived in the window
+            pty_case("namever", full_sp(), recipes=[{"mode": "units", "delays": [0, 2]}], place="window")]
+    for pl in PLACES:
+        out.append({"kind": "pty", "op": "raw", "more": "c", "request": list(b"\x1b[>q\x1b[c"),
+                    "stream_units": [list(b"\x1bP>|foot(1.1)\x1b\\"), list(b"\x1b[?62;c")], "cfg": dict(CFG0),
+                    "cache": [0, 0, 0, 0], "sp": dict.fromkeys(SLOTS), "recipes": [UNITS0], "place": pl})
+    return out
 
 
 INIT_GETTERS = [  # every getter: (op, calls, profile)
@@ -711,6 +745,8 @@ def impl_pty(c, T):
     d = impl_common(c, T)
     d["profile"] = printed(c["sp"])
     d["recipes"] = c["recipes"]
+    if c.get("place"):
+        d["place"] = c["place"]
     if c["op"] == "raw":
         d.update(more=c["more"], request=c["request"], stream_units=c["stream_units"])
     return d
@@ -890,6 +926,11 @@ def shrink_candidates(c):
     for k, v in (("swap", False), ("termux", False), ("env_name", None), ("env_version", None)):
         if c["cfg"][k] != v:
             out.append(dict(c, cfg=dict(c["cfg"], **{k: v})))
+    if c.get("place"):
+        # does it depend on WHEN the reply arrives?  (on sight = in practice during the read)
+        out.append({k: v for k, v in c.items() if k != "place"})
+        if c["place"] != "window":
+            out.append(dict(c, place="window"))
     if c.get("init"):
         i0 = c["init"]
         out.append({k: v for k, v in c.items() if k != "init"})
@@ -938,6 +979,15 @@ def txt(x):
     return "".join(chr(v) if 32 <= v < 127 else {27: "<ESC>", 7: "<BEL>"}.get(v, "<%02x>" % v) for v in x)
 
 
+PLACE_TEXT = {
+    "window": "window: every timely reply arrives right after the request has been fully written, before the "
+              "library's next tty call",
+    "read": "read: every timely reply arrives after the library has switched the tty to its reading mode",
+    "split": "split: all timely bursts but the last arrive right after the request has been fully written, the last "
+             "one during the read",
+}
+
+
 def describe(c):
     if c["kind"] == "x":
         return "x_parse_color(%r)" % txt(c["spec"])
@@ -950,6 +1000,8 @@ def describe(c):
     if c.get("init"):
         head += " INITIAL STATE{attributes=%s, unread input=%r (%s)}" % (
             attrs_name(c["init"]["attrs"]), txt(c["init"]["typeahead"]), typeahead_kind(c["init"]["typeahead"]))
+    if c.get("place"):
+        head += " REPLY PLACEMENT{%s}" % PLACE_TEXT[c["place"]]
     if c["op"] == "raw":
         return head + " request=%r more=%s replies=%s recipe=%s" % (
             txt(c["request"]), c["more"], [txt(u) for u in c["stream_units"]], c["recipes"])
@@ -966,7 +1018,7 @@ def describe(c):
 
 def sig_of(c):
     keep = {k: c[k] for k in ("kind", "op", "cfg", "cache", "sp", "recipes", "spec", "more", "request",
-                              "stream_units", "resp1", "resp2", "calls", "init") if k in c}
+                              "stream_units", "resp1", "resp2", "calls", "init", "place") if k in c}
     return core.sig(keep)
 
 
@@ -995,10 +1047,17 @@ def what_of(c, v, rec):
             obs = " -- observed %s" % ({k: r[k] for k in ("ok", "exc", "cache") if k in r})
         if "leftover" in rec:
             obs += ", left unread %r, elapsed %.3f s (timeout %.2f s)" % (txt(rec["leftover"]), rec["elapsed"], rec["timeout"])
+        if c.get("place") and r.get("tty_calls"):
+            obs += (", the library's tty calls in order %s (S<n> = tcsetattr with action n: 0 NOW, 1 DRAIN, 2 FLUSH; D = tcdrain "
+                    "returned, the placement point 'window'; F<q> = tcflush; S = the placement point 'read')" % " ".join(r["tty_calls"]))
     return "; ".join(parts) + ": " + describe(c) + obs
 
 
 # ------------------------------------------------------------------------- run
+
+
+BURST_CLASS = ["on-sight,back-to-back", "on-sight,delayed", "late(beyond timeout)",
+               "placed:after-request-written,before-next-tty-call", "placed:during-read"]
 
 
 def bump(h, k, n=1):
@@ -1019,13 +1078,14 @@ def run(ctx):
         n_corpus = (len(cx), len(cf), len(cp))
         xs = cx + [gen_x(rng) for _ in range(300 if quick else 6000)]
         fs = cf + [gen_fast(rng) for _ in range(500 if quick else 9000)]
-        ps = cp + init_cases(full=not quick)
+        ps = cp + init_cases(full=not quick) + place_cases(full=not quick)
         ps += sweep_cases(step=4 if quick else 1) + (sweep_cases(step=3, late=True) if not quick else [])
         ps += [gen_pty(rng) for _ in range(70 if quick else 1400)]
     errors, mismatches, failures = [], [], []
     hist = {"layer": {"x_parse_color": len(xs), "fast(parsers+decisions)": len(fs), "pty(real time)": len(ps)},
             "op": {}, "in_hypothesis(spec judged)": {"x": 0, "fast": 0, "pty": 0}, "pty_bursts_per_round": {},
-            "pty_burst_class": {"back-to-back": 0, "delayed": 0, "late(beyond timeout)": 0},
+            "pty_burst_class": {c: 0 for c in BURST_CLASS},
+            "pty_reply_placement": {},
             "pty_timeouts_waited": {}, "pty_rounds": {}, "pty_leftover_nonempty": 0, "pty_attempts": {},
             "pty_initial_attributes": {}, "pty_unread_input_at_call": {}, "pty_initial_state(attrs x input)": 0,
             "rgb_component_widths": {}, "identity": {}, "replies_present": {}, "queries_disabled": 0,
@@ -1114,6 +1174,7 @@ def run(ctx):
             bump(hist["pty_attempts"], (rec or {}).get("attempts", 0))
             bump(hist["pty_initial_attributes"], attrs_name(init_of(c)["attrs"], short=True))
             bump(hist["pty_unread_input_at_call"], typeahead_kind(init_of(c)["typeahead"]))
+            bump(hist["pty_reply_placement"], c.get("place") or "on-sight")
             init_pairs.add((attrs_name(init_of(c)["attrs"]), typeahead_kind(init_of(c)["typeahead"])))
             if v == -3:
                 # margins violated in all attempts (or the driver died): once more, alone
@@ -1136,7 +1197,7 @@ def run(ctx):
                 for r in rec["rounds"]:
                     bump(hist["pty_bursts_per_round"], min(len(r["bursts"]), 10))
                     for cls, data in r["bursts"]:
-                        hist["pty_burst_class"][["back-to-back", "delayed", "late(beyond timeout)"][cls]] += 1
+                        hist["pty_burst_class"][BURST_CLASS[cls]] += 1
                 if "exc" in rec["result"]:
                     bump(hist["exceptions_observed"], c["op"] + ":" + rec["result"]["exc"])
                 if any(r["bursts"] for r in rec["rounds"]):
@@ -1175,7 +1236,8 @@ def run(ctx):
     return {
         "corr_name": "Query.v / QueryInit.v (x_parse_color; parsers + decision rules of the six getters on canned responses; "
                      "the six getters + query_terminal against a real pty in real time from a generated initial state "
-                     "(attribute set, unread input): value, requests, unread bytes, attributes left, timeouts waited) == "
+                     "(attribute set, unread input) with the replies placed at exact points of the exchange: value, requests, "
+                     "unread bytes, attributes left, timeouts waited) == "
                      "term_image; QuerySpec.v (what must be reported for the terminal profile) == observed",
         "evaluations": len(xs) + len(fs) + len(ps),
         "distinct_nontrivial": len(distinct),
@@ -1194,7 +1256,12 @@ def run(ctx):
                 "the queue (none, printable type-ahead, a key's escape sequence, a complete stale DA1 / XTVERSION / "
                 "colour reply, a partial escape sequence, a lone CSI, random safe bytes, several of them): every getter "
                 "x {cooked, cbreak, raw} with the kinds of input rotating in the quick tier, the full product (7 "
-                "attribute sets x 8 inputs x every getter) in the thorough tier, and ~45% of the generated pty cases.  "
+                "attribute sets x 8 inputs x every getter) in the thorough tier, and ~45% of the generated pty cases; pty layer "
+                "REPLY PLACEMENT = the moment a reply arrives relative to the library's own steps, controlled without a "
+                "clock: every getter and the raw query x {all timely replies right after the request has been fully "
+                "transmitted and before the library's next tty call, after the library has switched the tty to its "
+                "reading mode, split across both}, some from non-default initial states (thorough: also whole-stream and "
+                "DA1-less variants), and ~40% of the generated pty cases (the others are answered 'on sight').  "
                 "Non-trivial: x spec inside the XParseColor grammar; fast case with a non-empty response; pty case in "
                 "which at least one request was answered; distinct by full case hash.",
         "samples": samples,
@@ -1216,6 +1283,10 @@ def run(ctx):
             "behaviour judged against: 'Any unread input is discarded before the query' (query_terminal docstring; "
             "guide/concepts, Terminal Queries, step 1) — so after a call that wrote a request NOTHING is readable; a "
             "call that wrote no request leaves the unread input alone (model), which the specification side does not judge",
+            "reply placement: 'the request has been fully transmitted' = the library's termios.tcdrain has returned; a "
+            "reply written at a placement point is in the tty's input queue (counted with FIONREAD, in non-canonical "
+            "counting mode) before the library makes its next step; the library is assumed to reach the terminal through "
+            "termios.tcdrain / tcsetattr / tcflush module attributes (a change that transmits without tcdrain is answered on sight)",
             "int(s, 16) extras (sign, blanks, underscores, 0x) cannot reach x_parse_color through the reply pattern and are "
             "not generated for the stand-alone comparison",
         ],
@@ -1224,6 +1295,8 @@ def run(ctx):
             "fast layer: utils.query_terminal / utils.read_tty replaced by canned responses; everything above is the real code",
             "a pass-through wrapper around utils.write_tty records the time of each request (pty layer)",
             "the staging protocol that enters a case's initial state (impl_c12.enter_initial_state: termios + FIONREAD)",
+            "placed cases: pass-through wrappers around termios.tcdrain / tcsetattr / tcflush (impl_c12.Gates: real call "
+            "first, then a go/FIONREAD handshake with the terminal side; ICANON toggled with TCSANOW around the count)",
             "every discrepancy must reproduce in two quiet re-runs to be reported (see extra.unreproduced_discrepancies)",
         ],
         "extra": extra,
